@@ -15,6 +15,9 @@ class RNode(NodeMixin):
     def __repr__(self):
         return self.repr_text
 
+    def __str__(self):
+        return "str-of-%d" % self.label      # str(RenderTree) must use repr(node), never str(node)
+
 
 def build(t, parent, index):
     n = RNode(t[0], parent)
